@@ -255,6 +255,37 @@ def verify_pipeline(run, tier, root='C06'):
 
 
 
+def verify_scanner_reading(run, tier):
+    """the trailing blocks of a version-3 dump on ARBITRARY bytes (a cut dump): one iteration of the real block declaration
+    either fails - the repetition stops - or makes progress and reads no more than a constant factor of what it consumes;
+    with the repetition's exit this bounds the reading of the whole scan linearly"""
+    from pyvc import construct_parse as CP
+    sess = Session()
+    it = sess.it
+    fq = MOD + ':kd_v3_additional_data (GreedyRange element)'
+    prefix = 'C06/parse_v3/scanner'
+
+    def thunk(ctx):
+        d = sess.module(MOD).ns['kd_v3_additional_data']
+        if getattr(d, 'kind', None) != 'GreedyRange':
+            raise Unsupported('kd_v3_additional_data is not a GreedyRange any more')
+        f = stream.FileModel('file', ctx)
+        q = z3.Int('scan.pos')
+        ctx.assume(z3.And(q >= 0, q <= f.N))
+        reader = stream.Reader(f, q)
+        try:
+            CP.parse(it, d.args[0], reader, None, None)
+        except PyExc as ex:
+            if ex.cls_name in ('StreamError', 'ConstError', 'RangeError', 'SelectError', 'ValueError', 'UnicodeDecodeError'):
+                return None            # the element does not parse here: GreedyRange stops
+            raise
+        consumed = reader.pos - q
+        ctx.oblige(prefix + '.iteration-makes-progress', consumed >= 8)
+        ctx.oblige(prefix + '.iteration-reads-no-more-than-a-constant-factor-of-what-it-consumes', reader.nbytes <= 3 * consumed + 64)
+        return None
+    c02._explore(run, tier, sess, thunk, fq, prefix)
+
+
 def prefix_lemma(run, tier):
     """if both runs are characterised by the record-loop invariant (event j = decode of file[b+64j : b+64j+64] lying
     inside the file, b = end of the header as parsed), then the events of a truncation are a prefix of the events
@@ -303,6 +334,7 @@ def run_check(run, tier):
     from checks import c03
     c03.verify_chunk_loops(run, tier, wf=False, prefix='C06/parse_v3')
     verify_print_with_count(run, tier)
+    verify_scanner_reading(run, tier)
     verify_pipeline(run, tier)
     prefix_lemma(run, tier)
     finish(run)
